@@ -256,6 +256,7 @@ def lemma_serves(mod, fn):
 
 
 THEOREM_SERVES = {
+    'lemma_requeue_parts': ['C11'], 'theorem_c11_trace_panic_preserves_inv': ['C11', 'C10'],
     'reach_n': [], 'lemma_reach_prot': ['C01', 'C05', 'C14'],
     'theorem_c01_reachable_is_alive': ['C01', 'C14', 'C11'],
     'theorem_values_untouched_by_sweep': ['C01', 'C17'], 'theorem_values_untouched_by_marking': ['C01', 'C17'],
